@@ -1,6 +1,6 @@
-CONSTANTS MaxLen = 4  MaxArgs = 2  MaxLen2 = 5  Bug = ""  Emit = TRUE
-CONSTANT Families = {"scan", "val"}
-CONSTANT Alphabet <- MCAlphabet  Alphabet2 <- MCAlphabet2  ScanVals <- MCScanVals  Vals <- MCVals  WidthStrs <- MCWidthStrs
+CONSTANTS MaxLen = 4  MaxArgs = 2  MaxLen2 = 5  Bug = ""  AdjLen = 3  Emit = TRUE
+CONSTANT Families = {"scan", "val", "adj"}
+CONSTANT Alphabet <- MCAlphabet  Alphabet2 <- MCAlphabet2  ScanVals <- MCScanVals  Vals <- MCVals  AdjTokens <- MCAdjTokens  WidthStrs <- MCWidthStrs
 INIT Init
 NEXT Next
 INVARIANT NoMismatch
